@@ -102,6 +102,20 @@ def oracle_c04_stats(h):
                     f = np.full(n, L, dtype=np.int64)  # L = "no neighbour"
                     f[k:] = x[:-k]
                     feats.append((f"draw of the agent {k} positions earlier (same variable, same period)", f, L + 1))
+                # the nearest earlier agent whose period-t row (all states and choices) is identical:
+                # draws keyed by anything derived from the agent's state instead of its position
+                # make "twins" draw the same label
+                try:
+                    M = np.stack([np.asarray(env[k], dtype=np.float64) for k in sorted(env)], axis=1)
+                    _, gid = np.unique(M, axis=0, return_inverse=True)
+                    gid = np.asarray(gid).reshape(-1)
+                    o = np.argsort(gid, kind="stable")
+                    tw = np.full(n, L, dtype=np.int64)
+                    same = gid[o][1:] == gid[o][:-1]
+                    tw[o[1:][same]] = x[o[:-1][same]]
+                    feats.append(("draw of the nearest earlier agent with an identical period-t row (same variable, same period)", tw, L + 1))
+                except Exception:  # noqa: BLE001 - a feature that cannot be built asserts nothing
+                    pass
                 if (s, t - 1) in draws:
                     feats.append(("the agent's own draw of the previous period", draws[(s, t - 1)][0], draws[(s, t - 1)][3]))
                 for s2 in ev.stochastic:
